@@ -90,3 +90,33 @@ V('C03', 'constraint-table-never-filled', 'edb/edgeql/declarative.py', 'edb.edge
   '            ctx.constraints[fq_name].add(con_name)\n', '', 'C03.R7', 'DepTraceContext.constraints:filled')
 V('C03', 'old-value-defaulted', 'edb/schema/delta.py', 'edb.schema.delta.ObjectCommand._apply_fields_ast',
   '                        fop.old_value != new_value\n', '                        (fop.old_value if fop.old_value is not None else field.get_default()) != new_value\n', 'C03.R7', 'old-value-as-recorded')
+
+# round 4
+V('C03', 'union-types-dropped-before-sort', 'edb/schema/ddl.py',
+  'edb.schema.ddl.delta_schemas',
+  '''    if linearize_delta:
+        objects = s_ordering.linearize_delta(
+            objects, old_schema=schema_a, new_schema=schema_b)
+''', '''    for cmd in list(objects.get_subcommands()):
+        if isinstance(cmd, s_objtypes.CreateObjectType):
+            if schema_b.get(cmd.classname).is_union_type(schema_b):
+                objects.discard(cmd)
+    if linearize_delta:
+        objects = s_ordering.linearize_delta(
+            objects, old_schema=schema_a, new_schema=schema_b)
+''', 'C03.R8', 'union-types-dropped-after-sorting')
+V('C03', 'array-shell-forgets-element-name', 'edb/schema/utils.py',
+  'edb.schema.utils.shell_to_ast',
+  '''        result = qlast.TypeName(
+            name=_name,
+            maintype=qlast.ObjectRef(
+                name='array',
+            ),''', '''        result = qlast.TypeName(
+            maintype=qlast.ObjectRef(
+                name='array',
+            ),''', 'C03.R8', 'carries-name')
+V('C03', 'std-annotation-unqualified', 'edb/schema/annos.py',
+  'edb.schema.annos.AnnotationValueCommand._deparse_name',
+  '        ref.itemclass = None\n',
+  "        ref.itemclass = None\n        if ref.module == 'std':\n            ref.module = None\n",
+  'C03.R8', 'keeps-module')
